@@ -49,4 +49,7 @@ Definition run_un (f : Z) (a : num) (p : Z) : list Z * list Z :=
               | 0 | 5 => round_spec m d | 1 => floor_md m d | 2 => ceil_md m d
               | 3 => Z.abs m | _ => round_half_even_md m d end in
   (* result value = model * 10^-p (abs keeps the fraction: model / d) *)
-  ([model; if f =? 3 then d else 1], [spec; if f =? 3 then d else 1]).
+  (* third component: 1 when the result is the negative zero of xs:float / xs:double (math.copysign(result, arg) in
+     floor / ceiling, the sign kept by round): a zero result of a negative argument, except for abs *)
+  let nz := fun r => if is_float (nk a) && (r =? 0) && negative a && negb (f =? 3) then 1 else 0 in
+  ([model; if f =? 3 then d else 1; nz model], [spec; if f =? 3 then d else 1; nz spec]).
